@@ -317,7 +317,7 @@ func TestVerifC09(t *testing.T) {
 			return [][]int{{1, 0}, {1, 1}, {1, 2}}
 		},
 		ExhaustMax: map[string]int{"quick": 6000, "thorough": 400000},
-		Runs:       map[string]int{"quick": 12000, "thorough": 2000000},
+		Runs:       map[string]int{"quick": 40000, "thorough": 4000000},
 		LeakSig:    "C09/goroutine-left-after-shutdown",
 		Real:       []string{"RegistrationManager.ingestRegistration (exists / track / covert / liveness / validate windows)", "RegisteredDecoys (lock, both maps, announce-once guard, sweeper collect-then-remove)", "HandleRegUpdates / startIngestThread (worker pool, shallow buffer, non-blocking hand-off, cancellation)", "GetRegistrations / CountRegistrations / MarkActive / RemoveOldRegistrations / OnReload", "min / prefix identifiers"},
 		Stub:       []string{"goroutine scheduling and the package's mutexes (simulator; emulated sync.RWMutex)", "liveness tester (table; probe begin/end are yield points; can hold workers inside a probe)", "resolver (yield point)", "detector (announcement recorder)", "parseRegMessage (harness builds the DecoyRegistration objects for the direct-ingest scenarios; the pipeline scenarios feed real marshalled messages)"},
